@@ -33,7 +33,7 @@ def check_C02(tier):
     t0 = time.time()
     b = compile_bin('refdiff', ['checks/refdiff.cc'], 'fast', ref=True)
     if tier == 'quick':
-        args = ['--grid', 'strat', '--evts', '1200']
+        args = ['--grid', 'strat', '--evts', '800']
     else:
         args = ['--grid', 'full', '--evts', os.environ.get('VERIF_C02_EVTS', '3000')]
     reps = run_native(b, ['--prop', 'C02', '--seed', str(seed()), '--known', known_tsv('C02')] + args, NCPU, 'C02')
